@@ -271,7 +271,40 @@ def rule_H6(ctx) -> None:
         ctx.inconclusive("H6", "EnumType.__new__:member-filter", f"member filter not recognised (prefix tests: {prefixes})", mod.loc(fn))
 
 
+def rule_H7(ctx) -> None:
+    """lookup by number hands out the canonical member: whatever EnumType.__call__ returns was taken out of the
+    number -> member table (or a lookup raises) - never the argument itself, which may be a different object with the same number
+    (an unpickled member)"""
+    from ..absint import Interp
+    mod = ctx.repo.mod(M_ENUM)
+    fn = mod.func("EnumType.__call__")
+    ctx.analysed("EnumType.__call__")
+    params = [a.arg for a in fn.args.args]
+    cls_p, val_p = N(params[0]), N(params[1])
+    paths = Interp(mod, fork_ifexp=True).run(fn)
+    ctx.count(len(paths))
+    bad = None
+    n = 0
+    for p in paths:
+        if p.outcome != "return" or p.value is None:
+            continue
+        n += 1
+        v = p.value
+        from_table = any(t[0] in ("sub", "call") and "_value_map_" in show(t) for t in walk(v))
+        if not from_table:
+            bad = bad or (show(v), {show(k): val for k, val in p.valuation.items()})
+    name = "EnumType.__call__:returns-canonical-member"
+    if not n:
+        ctx.inconclusive("H7", name, "no returning path", mod.loc(fn))
+    elif bad:
+        ctx.refuted("H7", name, f"returns {bad[0]}", mod.loc(fn),
+                    f"on the path {bad[1]} the lookup returns {bad[0]} instead of the entry of _value_map_: an instance that is not the canonical member (e.g. one recreated by pickle) "
+                    "is handed back as it is, so lookup by number no longer yields the one member object", "E(pickle.loads(pickle.dumps(E.A))) is E.A")
+    else:
+        ctx.proved("H7", name, mod.loc(fn), f"{n} returning paths, all out of _value_map_")
+
+
 def run(ctx) -> None:
-    for name, fn in (("H1", rule_H1), ("H2", rule_H2), ("H3", rule_H3), ("H4", rule_H4), ("H5", rule_H5), ("H6", rule_H6), ("T2", codec.rule_T2), ("T2b", codec.rule_T2b)):
+    for name, fn in (("H7", rule_H7), ("H1", rule_H1), ("H2", rule_H2), ("H3", rule_H3), ("H4", rule_H4), ("H5", rule_H5), ("H6", rule_H6), ("T2", codec.rule_T2), ("T2b", codec.rule_T2b)):
         ctx.rules_run.append(name)
         fn(ctx)
